@@ -404,9 +404,16 @@ class Trace:
     def cache_keys(self):
         """Keys of the computed table right now (None if unreadable)."""
         try:
-            return list(adapter.raw(self.bdd)._ite_table.keys())
+            keys = list(adapter.raw(self.bdd)._ite_table.keys())
         except Exception:
             return None
+        # the table is an INTERNAL of dd: if its keys are not (g, u, v) triples of
+        # integers any more, there is nothing to re-ask (no witness calls), and
+        # that is no violation of anything
+        for k in keys[:50]:
+            if not (isinstance(k, tuple) and len(k) == 3 and all(isinstance(x, int) for x in k)):
+                return None
+        return keys
 
     def cache_witness(self, keys, k=3):
         """Public-API witness for stale computed-table entries.
